@@ -151,7 +151,7 @@ func (e *Executor) RunTask(ctx context.Context, call *Call) error {
 	release := e.acquireConcurrencyLimit()
 	defer release()
 
-	return e.startExecution(ctx, t, func(ctx context.Context) error {
+	err = e.startExecution(ctx, t, func(ctx context.Context) error {
 		e.Logger.VerboseErrf(logger.Magenta, "task: %q started\n", call.Task)
 		if err := e.runDeps(ctx, t); err != nil {
 			// A command that failed in a dependency fails the called task like
@@ -263,6 +263,16 @@ func (e *Executor) RunTask(ctx context.Context, call *Call) error {
 		e.Logger.VerboseErrf(logger.Magenta, "task: %q finished\n", call.Task)
 		return nil
 	})
+	// A shared (run: once / when_changed) execution may have been started by a
+	// call of the other kind: report its failure the way this call would have
+	var runErr *errors.TaskRunError
+	if call.Indirect && errors.As(err, &runErr) && runErr.TaskName == t.Task {
+		return runErr.Err
+	}
+	if _, isExitError := interp.IsExitStatus(err); isExitError && !call.Indirect {
+		return &errors.TaskRunError{TaskName: t.Task, Err: err}
+	}
+	return err
 }
 
 func (e *Executor) mkdir(t *ast.Task) error {
